@@ -1238,9 +1238,59 @@ class Analyzer:
         for i, a in enumerate(args):
             t = self.ex[a].get('t', '')
             if (t.endswith('*') or t.endswith(']')) and (wr is None or i in wr):
-                self.havoc_reachable(env, self.rpath(a, env))
+                flds = self._written_fields(tg, i) if wr is not None else None
+                if flds is None:
+                    self.havoc_reachable(env, self.rpath(a, env))
+                else:
+                    self.havoc_fields(env, self.rpath(a, env), flds)
         tr = int_type_range(nd.get('t', ''))
         return V(*tr) if tr else TOP
+
+    def _written_fields(self, tg, i):
+        """names of the struct fields the callees may store to in the object behind their parameter i (K3 summaries), or
+        None when a store through that parameter has no field (array/scalar pointee, unknown)"""
+        E = getattr(self.P, '_effects', None)
+        if E is None:
+            return None
+        out = set()
+        for t in tg:
+            sm = E.summ.get(t)
+            if sm is None:
+                return None
+            for (o, rec, fld) in sm['stores']:
+                if o[0] == 'P' and o[1] == i:
+                    if fld is None:
+                        return None
+                    out.add(fld)
+            for o in sm['frees']:
+                if o[0] == 'P' and o[1] == i:
+                    return None
+        return out
+
+    def havoc_fields(self, env, prefix, fields):
+        """forget what is stored in the listed fields (at any depth below them) of the object `prefix` designates"""
+        if prefix is None:
+            return
+        p = prefix[1:] if prefix.startswith('&') else prefix
+        seps = (p + '->', p + '.')
+
+        def hit(k):
+            for sp in seps:
+                if k.startswith(sp):
+                    rest = k[len(sp):]
+                    name = rest.split('->')[0].split('.')[0].split('[')[0]
+                    return name in fields
+            return False
+        for k in [k for k in env if isinstance(k, str) and hit(k)]:
+            del env[k]
+        for zk in ('$zero', '$uninit'):
+            z = env.get(zk)
+            if z:
+                # a zero/uninit prefix at or above a written field no longer holds as a whole
+                env[zk] = frozenset(x for x in z if not (x.startswith(p) and (hit(x) or x in (p + '->', p + '.', p + '['))))
+        eq = env.get('$eq')
+        if eq and any(hit(a) or hit(b) for a, b in eq.items()):
+            env['$eq'] = {a: b for a, b in eq.items() if not hit(a) and not hit(b)}
 
     def lib_call(self, env, e, name, args, avals):
         nd = self.ex[e]
@@ -1342,6 +1392,15 @@ class Analyzer:
                 return None
             self.assign_refined(env, a, va, na)
             self.assign_refined(env, b, vb, nb)
+            if op == '==':
+                # two locations known equal: a refinement of one refines the other from here on
+                ka = self.path(self.F.strip_casts(a), env) if self.ex[self.F.strip_casts(a)]['k'] in ('ref', 'member') else None
+                kb = self.path(self.F.strip_casts(b), env) if self.ex[self.F.strip_casts(b)]['k'] in ('ref', 'member') else None
+                if ka and kb and ka != kb:
+                    eq = dict(env.get('$eq') or {})
+                    eq[ka] = kb
+                    eq[kb] = ka
+                    env['$eq'] = eq
             return env
         if k == 'assign':
             v = self.peek(env, nd['c'][0])
